@@ -299,6 +299,8 @@ def roundtrip_stream(ctx, g, batch, ir, auxinfo, bs, tag):
             aux_values_check(ctx, g, ir3, auxinfo, ir, tag + ":second-load")
             for prob in content.identity_check(g, ir3):
                 ctx.add("oracle", "roundtrip:identity", "second load of the same file: " + prob, {"tag": tag, "file": bs.hex()})
+            for prob in content.shared_between(ir2, ir3):
+                ctx.add("oracle", "roundtrip:coherence", "two loads of the same file: " + prob, {"tag": tag, "file": bs.hex()})
             for f in ctx.findings[n0:]:
                 f.what = "on a second load of the same file in one process: " + f.what
                 if isinstance(f.replay, dict):
